@@ -11,7 +11,8 @@ VERIF = os.path.dirname(HERE)
 def main():
     d = tla.scratch_spec_dir(os.path.join(VERIF, "spec"))
     try:
-        for cfg in sorted(f for f in os.listdir(d) if f.startswith("Tracker_wit_") and f.endswith(".cfg")):
+        wits = [] if os.environ.get("ONLY_COVER") else sorted(f for f in os.listdir(d) if f.startswith("Tracker_wit_") and f.endswith(".cfg"))
+        for cfg in wits:
             r = tla.run_tlc(d, "Tracker.tla", cfg, workers=16, timeout=3000, heap="12g")
             name = cfg[len("Tracker_wit_"):-4]
             if not r.violation:
@@ -29,6 +30,8 @@ def main():
             print(cfg, "witness of", len(beh), "states", "%.0fs" % r.wall)
         # branch-coverage witnesses: one shortest behaviour per (action, branch tag)
         covers = [] if os.environ.get("SKIP_COVER") else sorted(f for f in os.listdir(d) if f.startswith("Tracker_cover_") and f.endswith(".cfg"))
+        if os.environ.get("ONLY_COVER"):
+            covers = [c for c in covers if os.environ["ONLY_COVER"] in c]
         for cfg in covers:
             r = tla.run_tlc(d, "TrackerCover.tla", cfg, workers=1, timeout=6000, heap="16g", extra=["-continue"])
             behs = tla.parse_error_traces(r.out)
